@@ -27,10 +27,13 @@ CLAIMS = {
  "C20": {"design_ref": "DESIGN.md §2 C20",
   "technique": "parser/highlighter bracket-class agreement (arm tables) + slice-partition shape of highlight",
   "text": "Decides that every token type the parser treats as an opener (its arm hands off to a sub-parser with a RightParen arm) is known to find_matching_bracket, and that highlight formats exactly [0..s0] + on + [s0..s1] + off + [s1..] of one token span with one escape pair. Necessary for 'exactly the matching bracket and nothing else'; that the partner is the properly nested one is value-level and not decided."},
+ "C19": {"design_ref": "DESIGN.md §2 C19",
+  "technique": "strongly connected components of the resolved call graph (with fmt / forwarding-impl / fn-pointer / dyn edges) + self-reaching type graph",
+  "text": "Decides the exact static form of the property: there is no native recursion whose depth follows the data other than the inventoried ones. Every recursive call edge of the workspace call graph is either in a reviewed bounded list (retry-after-grow, type-bounded) or reported; every local type that owns itself without a hand-written Drop is reported. All data-driven recursions of the pinned tree are genuine (depth 10^5 aborts the process) and are listed as known findings per call edge with site counts, so any new recursive call site or newly recursive routine is a violation. Frame sizes and the exact depth of the abort are not decided."},
 }
 NOT_APPLICABLE = {
  "C17": "Matcher/instantiator soundness and termination are properties of what two hand-written iterator state machines compute for every transformer and use; no structural clause is a faithful necessary condition without restating the algorithm (DESIGN.md §2 C17). transform.rs is still covered by C06 (panic sites) and C19 (recursion).",
 }
 # properties whose rule packs are designed (DESIGN.md §2) but not built yet; moved to CLAIMS as they land
 PENDING = {p: "rule pack designed in DESIGN.md §2 but not built yet in this revision; not claimed until it is" for p in
-           ["C01", "C02", "C06", "C08", "C09", "C10", "C14", "C15", "C16", "C19"]}
+           ["C01", "C02", "C06", "C08", "C09", "C10", "C14", "C15", "C16"]}
